@@ -404,7 +404,7 @@ func c16JobConfigs(c *pure.Ctx) {
 		{"string", obj{"options": []interface{}{obj{"type": "String", "name": "s", "string": obj{"default": "d"}}}}},
 	}
 	templates := []variant{{"pod", podTmpl}, {"with-attempts", func() obj { o := clone(podTmpl).(obj); o["maxAttempts"] = 2; return o }()}}
-	edits := []string{"none", "label-only", "expr", "disable-toggle", "add-constraints", "drop-schedule", "add-schedule", "timezone"}
+	edits := []string{"none", "label-only", "expr", "disable-toggle", "add-constraints", "drop-schedule", "add-schedule", "timezone", "expr+future-lastUpdated", "unchanged+future-lastUpdated"}
 	for _, sch := range schedules {
 		for _, opt := range optionsV {
 			for _, tm := range templates {
@@ -482,6 +482,16 @@ func c16JobConfigs(c *pure.Ctx) {
 						delete(cr, "expressions")
 						cr["expression"] = "*/7 * * * *"
 						changed = true
+					case "expr+future-lastUpdated", "unchanged+future-lastUpdated":
+						if !has || sched["cron"] == nil {
+							continue
+						}
+						if ed == "expr+future-lastUpdated" {
+							cr := sched["cron"].(obj)
+							delete(cr, "expressions")
+							cr["expression"] = "*/9 * * * *"
+						}
+						sched["lastUpdated"] = "2060-09-09T00:00:00Z"
 					case "disable-toggle":
 						if !has {
 							continue
@@ -533,6 +543,11 @@ func c16JobConfigs(c *pure.Ctx) {
 						before = created.Spec.Schedule.LastUpdated
 					}
 					switch {
+					case ed == "expr+future-lastUpdated" || ed == "unchanged+future-lastUpdated":
+						// an explicitly submitted future lastUpdated is kept as submitted
+						if lu == nil || !lu.Time.Equal(time.Date(2060, 9, 9, 0, 0, 0, 0, time.UTC)) {
+							c.Violate("last-updated", fmt.Sprintf("%s: the submitted future lastUpdated must be kept, got %v", udesc, lu))
+						}
 					case changed && sch.name == "cron-lastUpdated-future":
 						if lu == nil || !lu.Equal(before) {
 							c.Violate("last-updated", udesc+": a future lastUpdated must be kept")
